@@ -278,16 +278,15 @@ def rule_auto_flush(ctx, f, rid):
                 if has_arg:
                     # the forwarded value is the captured argument
                     caps = withs[0].args[1][3]
-                    v = peel(tg[0].args[1])
-                    capv = None
-                    if v[0] == "field" and peel(v[1]) == P(1) and str(v[2]).isdigit():
-                        capv = peel(caps[int(v[2])])
+                    from pvrules.rules import resolve_capture
+                    capv = resolve_capture(tg[0].args[1], caps)
                     okc = okc and capv == P(2)
                 okc = okc and (len(mf) == 1 and count_range(cl, [mf[0].bb]) == (1, 1) and peel(mf[0].args[0]) == P(2) and mf[0].bb in cl.strictly_after(tg[0].bb) if flushes else len(mf) == 0)
                 okc = okc and len(eff) == (2 if flushes else 1)
         ctx.ob(rid, "%s::%s|delegates" % (ty, m), ok and okc, "%s::%s must run exactly %s on the located local%s inside with()" % (ty, m, callee, " followed by may_flush" if flushes else ""), site=b.raw["span"]["at"])
     ctx.floor(rid, "auto-flush wrapper methods", n, 9)
-    gc = ctx.anchor(rid, "AFLocalCounter::get_counter", f.body(A + "AFLocalCounter::get_counter"))
+    # (a private accessor; without it the wrappers call the delegator's get_local themselves, which `delegates` above checks)
+    gc = f.body(A + "AFLocalCounter::get_counter")
     if gc:
         ctx.saw(gc)
         r = peel(gc.term_local(0), transparent=[])
